@@ -273,3 +273,100 @@ func fieldOwner(fa *ssa.FieldAddr) string {
 	}
 	return pkgShort(nt.Obj().Pkg()) + "." + nt.Obj().Name() + "." + st.Field(fa.Field).Name()
 }
+
+// ---- finite abstraction of netip.Addr arguments: address classes ----
+
+// addrClass is one equivalence class of netip.Addr values under the predicates the code tests.
+type addrClass struct {
+	Name                                   string
+	Valid, Is4, Is6, LinkLocalUnicast, GUA bool
+}
+
+var addrClasses = []addrClass{
+	{Name: "no address (zero netip.Addr)"},
+	{Name: "IPv4", Valid: true, Is4: true},
+	{Name: "IPv4 link-local (169.254/16)", Valid: true, Is4: true, LinkLocalUnicast: true},
+	{Name: "IPv6 link-local unicast", Valid: true, Is6: true, LinkLocalUnicast: true},
+	{Name: "IPv6 global unicast", Valid: true, Is6: true, GUA: true},
+	{Name: "IPv6 other (multicast/unspecified)", Valid: true, Is6: true},
+}
+
+// evalAddrCond evaluates a condition that is a netip.Addr predicate of an expression whose normal form
+// has suffix ipExpr (e.g. "arg0.IP"), for one class. ok=false: not such a predicate.
+func evalAddrCond(v ssa.Value, ipExpr string, cl addrClass) (val, ok bool) {
+	switch t := v.(type) {
+	case *ssa.UnOp:
+		if t.Op == token.NOT {
+			b, ok := evalAddrCond(t.X, ipExpr, cl)
+			return !b, ok
+		}
+	case *ssa.Call:
+		callee := t.Call.StaticCallee()
+		if callee == nil || len(t.Call.Args) != 1 || !strings.HasSuffix(norm(t.Call.Args[0]), ipExpr) {
+			return false, false
+		}
+		switch callee.String() {
+		case "(net/netip.Addr).IsValid":
+			return cl.Valid, true
+		case "(net/netip.Addr).Is4":
+			return cl.Is4, true
+		case "(net/netip.Addr).Is6":
+			return cl.Is6, true
+		case "(net/netip.Addr).IsLinkLocalUnicast":
+			return cl.LinkLocalUnicast, true
+		case "(net/netip.Addr).IsGlobalUnicast":
+			return cl.GUA, true
+		}
+	}
+	return false, false
+}
+
+// classReach simulates fn for one address class: branches on address predicates follow the class, every other
+// branch is explored both ways. It reports whether some path reaches an instruction satisfying pred, and whether
+// every path to a return passes one.
+func classReach(fn *ssa.Function, ipExpr string, cl addrClass, pred func(ssa.Instruction) bool) (some, all bool) {
+	all = true
+	type item struct {
+		b    *ssa.BasicBlock
+		pass bool
+	}
+	seen := map[item]bool{}
+	var walk func(it item)
+	walk = func(it item) {
+		if seen[it] {
+			return
+		}
+		seen[it] = true
+		pass := it.pass
+		for _, ins := range it.b.Instrs {
+			if pred(ins) {
+				pass, some = true, true
+			}
+			switch t := ins.(type) {
+			case *ssa.Return:
+				if !pass {
+					all = false
+				}
+				return
+			case *ssa.Panic:
+				return
+			case *ssa.If:
+				if v, ok := evalAddrCond(t.Cond, ipExpr, cl); ok {
+					if v {
+						walk(item{it.b.Succs[0], pass})
+					} else {
+						walk(item{it.b.Succs[1], pass})
+					}
+					return
+				}
+			}
+		}
+		for _, s := range it.b.Succs {
+			walk(item{s, pass})
+		}
+	}
+	if len(fn.Blocks) > 0 {
+		walk(item{fn.Blocks[0], false})
+	}
+	return some, all
+}
